@@ -6,7 +6,8 @@
    Part 2: the tables that say which switch guards which entry path of the pools and of the vault.
    Part 3: the switches of the concrete vault model (Vault.v), for which non-interference is proved on the real
            transition function, borrower scripts of every depth included. *)
-From WW Require Import Prim Vault.
+From WW Require Import Prim Vault Params.
+From Coq Require Import String.
 
 Inductive K : Type := KDep | KWd | KSwap.          (* deposits / withdrawals / swaps (vault: flash loans) *)
 Record flags := mkF { f_dep : bool; f_wd : bool; f_sw : bool }.
@@ -127,3 +128,38 @@ Definition o_uses (k : K) (o : op) : bool :=
 
 Definition omap {A B} (f : A -> B) (m : outcome A) : outcome B :=
   match m with Ok a => Ok (f a) | Err e => Err e | Panic => Panic end.
+
+(* ---- Part 4: the message inventories generated from the Rust enums are completely classified ------------------ *)
+(* how each ExecuteMsg / Cw20HookMsg variant is guarded: Some (Some k) = by switch k; Some None = not an entry path of a
+   pausable operation (config, fee collection, internal callback, cw20 dispatcher); None = unknown variant *)
+Open Scope string_scope.
+Definition pool_execute_guard (v : string) : option (option K) :=
+  if String.eqb v "ProvideLiquidity" then Some (Some KDep)
+  else if String.eqb v "Swap" then Some (Some KSwap)
+  else if String.eqb v "WithdrawLiquidity" then Some None      (* token-factory LP path: rejected with a cw20 LP token *)
+  else if String.eqb v "Receive" then Some None                (* dispatches to the hook variants below *)
+  else if String.eqb v "UpdateConfig" then Some None
+  else if String.eqb v "CollectProtocolFees" then Some None
+  else None.
+Definition pool_hook_guard (v : string) : option (option K) :=
+  if String.eqb v "Swap" then Some (Some KSwap)
+  else if String.eqb v "WithdrawLiquidity" then Some (Some KWd)
+  else None.
+Definition vault_execute_guard (v : string) : option (option K) :=
+  if String.eqb v "Deposit" then Some (Some KDep)
+  else if String.eqb v "FlashLoan" then Some (Some KSwap)
+  else if String.eqb v "Withdraw" then Some None               (* token-factory LP path: rejected with a cw20 LP token *)
+  else if String.eqb v "Receive" then Some None
+  else if String.eqb v "CollectProtocolFees" then Some None
+  else if String.eqb v "UpdateConfig" then Some None
+  else if String.eqb v "Callback" then Some None               (* only from the vault itself *)
+  else None.
+Definition vault_hook_guard (v : string) : option (option K) :=
+  if String.eqb v "Withdraw" then Some (Some KWd) else None.
+Definition classified (g : string -> option (option K)) (l : list string) : bool :=
+  forallb (fun v => match g v with Some _ => true | None => false end) l.
+Definition inventories_classified : bool :=
+  classified pool_execute_guard Params.pair_execute && classified pool_hook_guard Params.pair_cw20hook &&
+  classified pool_execute_guard Params.trio_execute && classified pool_hook_guard Params.trio_cw20hook &&
+  classified vault_execute_guard Params.vault_execute && classified vault_hook_guard Params.vault_cw20hook.
+Close Scope string_scope.
